@@ -237,6 +237,18 @@ def cli_faults(b, v, tier, seed):
                 p = subprocess.run(args, stdin=subprocess.DEVNULL, stdout=subprocess.PIPE, stderr=subprocess.PIPE, env=env, timeout=120)
                 out = open(outp, "rb").read() if oc == "file" and os.path.exists(outp) else (p.stdout if oc == "stdout" else None)
                 check(".gz input cut after %d of %d bytes, output to %s" % (k, len(gzd), oc), p.returncode, out, p.stderr.decode("utf-8", "replace"), " ".join(args[1:]))
+        # ... a damaged header on disk (magic number, method): the file is named .gz, so it is a broken archive, not a text log
+        for off in (0, 1, 2):
+            dh = bytearray(gzd)
+            dh[off] ^= 0x55
+            bad = os.path.join(wd, "hdr.log.gz")
+            open(bad, "wb").write(bytes(dh))
+            for oc in ("stdout", "file"):
+                outp = os.path.join(wd, "hdr.out")
+                args = [b.cli, "redact", bad] + cfg.flags + (["-o", outp] if oc == "file" else [])
+                p = subprocess.run(args, stdin=subprocess.DEVNULL, stdout=subprocess.PIPE, stderr=subprocess.PIPE, env=env, timeout=120)
+                out = open(outp, "rb").read() if oc == "file" and os.path.exists(outp) else (p.stdout if oc == "stdout" else None)
+                check(".gz input with byte %d of the gzip header damaged, output to %s" % (off, oc), p.returncode, out, p.stderr.decode("utf-8", "replace"), " ".join(args[1:]))
         d = bytearray(gzd)
         d[-6] ^= 0x10          # CRC32 trailer
         bad = os.path.join(wd, "crc.log.gz")
@@ -274,6 +286,38 @@ def cli_faults(b, v, tier, seed):
                     out = open(outp, "rb").read() if os.path.exists(outp) else b""
                     check("ENOSPC injected into the output writes from write #%d on (%s -> %s)" % (k, src, oc), p.returncode, out,
                           p.stderr.decode("utf-8", "replace"), " ".join(args[1:]))
+    # 6. a big archive (more than 1 MiB compressed: other read paths, read-ahead, background inflating) cut / damaged in its last quarter
+    import random as _rnd, base64 as _b64
+    rr = _rnd.Random(seed * 101 + 7)
+    big = []
+    for j in range(1600 if tier == "quick" else 6000):
+        blob = _b64.b64encode(bytes(rr.getrandbits(8) for _ in range(700))).decode()
+        big.append('{"t":{"$date":"2025-01-01T00:00:00.000+00:00"},"s":"I","c":"COMMAND","id":%d,"ctx":"conn1","msg":"Slow query","attr":{"ns":"dbq.cq",'
+                   '"command":{"find":"cq","filter":{"k":"%s"},"$db":"dbq"},"blob":"%s"}}' % (8100000 + j, blob[:40], blob))
+    bdata = ("\n".join(big) + "\n").encode()
+    bgz = gzip.compress(bdata, mtime=0)
+    cfg = cfgs[0]
+    bigp = os.path.join(wd, "big.log.gz")
+    open(bigp, "wb").write(bgz)
+    pff = subprocess.run([b.cli, "redact", bigp] + cfg.flags, stdin=subprocess.DEVNULL, stdout=subprocess.PIPE, stderr=subprocess.PIPE, env=env, timeout=300)
+    if pff.returncode == 0 and len(bgz) > (1 << 20):
+        ff_big = pff.stdout
+        for what, dmg in (("cut at three quarters", bgz[:len(bgz) * 3 // 4]), ("cut 9 bytes before the end", bgz[:-9]),
+                          ("a byte flipped at three quarters", bgz[:len(bgz) * 3 // 4] + bytes([bgz[len(bgz) * 3 // 4] ^ 0x40]) + bgz[len(bgz) * 3 // 4 + 1:])):
+            open(bigp, "wb").write(dmg)
+            for oc in ("stdout", "file"):
+                outp = os.path.join(wd, "big.out")
+                args = [b.cli, "redact", bigp] + cfg.flags + (["-o", outp] if oc == "file" else [])
+                p = subprocess.run(args, stdin=subprocess.DEVNULL, stdout=subprocess.PIPE, stderr=subprocess.PIPE, env=env, timeout=300)
+                out = open(outp, "rb").read() if oc == "file" and os.path.exists(outp) else p.stdout
+                n += 1
+                v.count()
+                rep = {"fault": "a %d-byte .gz archive %s" % (len(bgz), what), "exit": p.returncode, "stderr": p.stderr.decode("utf-8", "replace")[:300],
+                       "output_lines": out.count(b"\n"), "fault_free_lines": ff_big.count(b"\n")}
+                if p.returncode == 0 and out != ff_big:
+                    v.violation("an I/O failure is not reported: the CLI exits 0 with an incomplete output (big .gz archive, %s)" % ("cut" if "cut" in what else "damaged"), rep)
+                elif "cut" in what and p.returncode == 0:
+                    v.violation("an I/O failure is not reported: the CLI exits 0 (big .gz archive, cut)", rep)
     shutil.rmtree(wd, ignore_errors=True)
     return n
 
